@@ -165,10 +165,12 @@ class LazyBox:
         return f"LazyBox({self.v!r})"
 
 
-def enc_val(v: Any) -> Any:
+def enc_val(v: Any, _depth: int = 0) -> Any:
     """Python value -> canonical JSON value encoding (the inverse of py_val)."""
+    if _depth > 60:
+        return {"other": "nested-beyond-60-levels"}      # a runaway (self-feeding) value: reported, not followed
     if type(v) is LazyBox:
-        return {"box": enc_val(v.v)}
+        return {"box": enc_val(v.v, _depth + 1)}
     if type(v) is AlwaysEq:
         return {"anyeq": v.n}
     if v is None or isinstance(v, (bool, int, str)):
@@ -178,9 +180,9 @@ def enc_val(v: Any) -> Any:
     if v is END:
         return "__END__"
     if isinstance(v, tuple):
-        return {"t": [enc_val(x) for x in v]}
+        return {"t": [enc_val(x, _depth + 1) for x in v]}
     if isinstance(v, list):
-        return {"l": [enc_val(x) for x in v]}
+        return {"l": [enc_val(x, _depth + 1) for x in v]}
     if isinstance(v, UserErr):
         return {"err": v.tag}
     if type(v) is Plain:
@@ -188,9 +190,9 @@ def enc_val(v: Any) -> Any:
     if type(v) is float and v.is_integer():
         return {"f": int(v)}
     if type(v) is dict:
-        return {"d": sorted(([enc_val(k), enc_val(x)] for k, x in v.items()), key=repr)}
+        return {"d": sorted(([enc_val(k, _depth + 1), enc_val(x, _depth + 1)] for k, x in v.items()), key=repr)}
     if type(v) in (set, frozenset):
-        return {"S" if type(v) is set else "F": sorted((enc_val(x) for x in v), key=repr)}
+        return {"S" if type(v) is set else "F": sorted((enc_val(x, _depth + 1) for x in v), key=repr)}
     return {"other": type(v).__name__}
 
 
